@@ -21,9 +21,15 @@
    repetition tags) and of the oracle.
    Reading of the limit clause for reversed numbering: the counter of copy i of N is start+N-i with N
    as written, also when the limit stops the repeater early (the code, upstream and the oracle agree);
-   N = 0 is read as N = 1 (written_count), outside the statement's claim. *)
+   N = 0 is read as N = 1 (written_count), outside the statement's claim.
+   Added (end of file): C02_parser_output_clean -- the parser's output on every token list without `$#`
+   tokens and implicit repeaters is [clean_node], so the copy/budget theorems apply to every abbreviation
+   text free of `$#` and bare `*` (C02_text_output_clean_partial: stated for the text condition "no `$#`,
+   a digit after every `*`"); C02_limit_full_with_wrap -- the closed form of convert for ALL trees the
+   parser can return, implicit repeaters and wrap text included (spec [unroll_w], proofs/WrapFull.v). *)
 From Emmet Require Import lib.Base model.MarkupTokenizer model.MarkupParser model.MarkupConvert
      proofs.NumberingProofs proofs.ConvertProofs.
+From Emmet Require Import proofs.SafeBridge proofs.WrapFull proofs.WrapLines proofs.ParserClean.
 Local Open Scope Z_scope.
 
 (* Scope of the copy/budget theorems: token trees that are [clean_node] -- no `$#` placeholder token
@@ -286,4 +292,123 @@ Example C02_nonvacuous_copies :
 Proof.
   eexists. eexists. split; [vm_compute; reflexivity|]. split; [vm_compute; reflexivity|].
   repeat split; vm_compute; reflexivity.
+Qed.
+
+(* ================================================================ the domain of the theorems above is what the
+   parser returns *)
+Local Close Scope Z_scope.
+
+(* ---- parser_output_clean.  [W MPlain toks]: read with the three-state automaton of proofs/SafeBridge.v
+   (plain / inside quotes / inside text braces) the list holds, inside quotes and braces, only literal-like
+   tokens and the closing quote / brace -- in particular no Repeater token there; every tokenizer output is
+   of this kind (C02_tokenizer_output_W).  [plain_tokens toks]: no `$#` token, no Repeater token without a
+   number.  Then EVERY tree the parser returns is [clean_node].
+   (Without [W] the claim is false for arbitrary token lists: `{` Repeater `}` puts a Repeater token into a
+   text value.) *)
+Theorem C02_parser_output_clean :
+  forall (jsx : bool) (toks : list token) (root : list tnode),
+    W MPlain toks = true -> plain_tokens toks = true ->
+    parse jsx toks = POk root -> forallb clean_node root = true.
+Proof. exact parser_output_clean. Qed.
+Print Assumptions C02_parser_output_clean.
+
+Theorem C02_tokenizer_output_W :
+  forall (s : str) (toks : list token), tokenize s = TOk toks -> W MPlain toks = true.
+Proof. exact SafeBridgeTok.tokenize_W. Qed.
+Print Assumptions C02_tokenizer_output_W.
+
+(* the fact behind it, for ALL token lists and any property of tokens [P] / repeater payloads [Q]: the
+   parser builds its trees from the tokens it is given (plus the literal `id` / `class` of `#x` / `.x`) *)
+Theorem C02_parser_provenance :
+  forall (P : token -> bool) (Q : rep -> bool),
+    P (literal_tok s_id) = true -> P (literal_tok s_class) = true ->
+    forall (jsx : bool) (toks : list token) (root : list tnode),
+      Pl P toks = true -> Ql Q toks = true ->
+      parse jsx toks = POk root -> forallb (nodePQ P Q) root = true.
+Proof. exact parse_PQ. Qed.
+Print Assumptions C02_parser_provenance.
+
+(* ---- composed with the tokenizer.
+   Full statement (kept visible): the text contains no `$#` and no `*` that is not followed by a digit
+   OUTSIDE quotes / text braces / attribute brackets  ==>  every tree parse returns is clean_node.
+   _partial: proved for the coarser text condition "no `$#` anywhere, a digit after EVERY `*`"
+   ([no_dollar_hash], [stars_counted]); a bare `*` inside quotes, `{..}` or `[..]` is literal text for the
+   tokenizer and is covered by the token-level theorem C02_parser_output_clean only (its hypothesis
+   [plain_tokens] is exact), not by a condition on the characters. *)
+Theorem C02_text_output_clean_partial :
+  forall (jsx : bool) (s : str) (toks : list token) (root : list tnode),
+    no_dollar_hash s = true -> stars_counted s = true ->
+    tokenize s = TOk toks -> parse jsx toks = POk root -> forallb clean_node root = true.
+Proof. exact text_output_clean. Qed.
+Print Assumptions C02_text_output_clean_partial.
+
+(* ---- limit_full_with_wrap: the closed form of convert for ALL trees whose tokens can be printed
+   ([conv_node]; C02_parser_output_printable: every tree the parser returns on tokenizer output) --
+   `$#` and implicit repeaters included, every text, every budget.  [convert_w] = the unrolling spec
+   [unroll_w] (budget and the two text flags threaded in document order) followed by the final insertion
+   of the whole text when nothing took it; see props/C04Wrap.v for the reading of the spec. *)
+Theorem C02_limit_full_with_wrap :
+  forall (env : cenv) (max_repeat : option N) (root : list tnode),
+    forallb conv_node root = true ->
+    convert env max_repeat root = Ok (convert_w env max_repeat root).
+Proof. exact convert_wrap_full. Qed.
+Print Assumptions C02_limit_full_with_wrap.
+
+Theorem C02_parser_output_printable :
+  forall (jsx : bool) (s : str) (toks : list token) (root : list tnode),
+    tokenize s = TOk toks -> parse jsx toks = POk root -> forallb conv_node root = true.
+Proof. exact parser_output_printable. Qed.
+Print Assumptions C02_parser_output_printable.
+
+(* from the text: whatever the abbreviation, whatever the wrap text and the limit *)
+Theorem C02_limit_full_text :
+  forall (jsx : bool) (env : cenv) (max_repeat : option N) (s : str) (toks : list token) (root : list tnode),
+    tokenize s = TOk toks -> parse jsx toks = POk root ->
+    convert env max_repeat root = Ok (convert_w env max_repeat root).
+Proof. exact convert_text_full. Qed.
+Print Assumptions C02_limit_full_text.
+
+(* on C02's own domain (no text, clean trees) the extended spec is the budgeted unrolling of C02_limit_full;
+   more generally a tree without implicit repeaters unrolls by [unroll_b] whatever the text, the flags only
+   recording whether a `$#` was met *)
+Theorem C02_wrap_spec_agrees :
+  forall (env : cenv) (max_repeat : option N) (root : list tnode),
+    ce_text env = WNone -> forallb clean_node root = true ->
+    convert_w env max_repeat root = fst (list_b (unroll_b env []) root (budget_of max_repeat)).
+Proof. exact convert_w_clean. Qed.
+Print Assumptions C02_wrap_spec_agrees.
+
+Theorem C02_explicit_trees_unroll_b :
+  forall (env : cenv) (node : tnode), explicit_node node = true ->
+  forall (reps : list rep) (w : wst),
+    unroll_w env reps node w =
+    (fst (unroll_b env reps node (w_budget w)),
+     w_mk (ph_node node) w (snd (unroll_b env reps node (w_budget w)))).
+Proof. exact unroll_w_explicit. Qed.
+Print Assumptions C02_explicit_trees_unroll_b.
+
+(* non-vacuity: a text with numbering, groups, nested counts, `*` inside quotes with a digit after it
+   satisfies the text condition, tokenizes, parses, and the tree is clean; a text with `$#` and a bare `*`
+   parses to a printable tree on which convert = convert_w computes *)
+Example C02_clean_nonvacuous :
+  let s := S "(p.c$$@3*2>q[t=""a*3""])*2+u$@-*3" in
+  no_dollar_hash s = true /\ stars_counted s = true /\
+  exists toks root, tokenize s = TOk toks /\ W MPlain toks = true /\ plain_tokens toks = true /\
+                    parse false toks = POk root /\ forallb clean_node root = true /\ total_list root = 9%Z.
+Proof.
+  cbv zeta. split; [vm_compute; reflexivity|]. split; [vm_compute; reflexivity|].
+  eexists. eexists. split; [vm_compute; reflexivity|].
+  split; [vm_compute; reflexivity|]. split; [vm_compute; reflexivity|].
+  split; [vm_compute; reflexivity|]. split; vm_compute; reflexivity.
+Qed.
+
+Example C02_wrap_nonvacuous :
+  let env := mkCenv (WList [S " one "; S ""; S "two"]) [] false in
+  exists toks root, tokenize (S "ul>li.i$*>b*2>i{$#}") = TOk toks /\ parse false toks = POk root /\
+    forallb conv_node root = true /\ forallb clean_node root = false /\
+    convert env (Some 5%N) root = Ok (convert_w env (Some 5%N) root) /\
+    map (fun n => List.length (an_children n)) (convert_w env (Some 5%N) root) = [2%nat].
+Proof.
+  cbv zeta. eexists. eexists. split; [vm_compute; reflexivity|]. split; [vm_compute; reflexivity|].
+  split; [vm_compute; reflexivity|]. split; [vm_compute; reflexivity|]. split; vm_compute; reflexivity.
 Qed.
